@@ -5,6 +5,7 @@
 3. run the given checks against the patched worktree (VERIF_REPO=<worktree>, scratch build/out dirs) and record who catches it."""
 import json, os, shutil, subprocess, sys, tempfile, time
 wt, sd, name = sys.argv[1:4]
+sd = os.path.abspath(sd)
 props = sys.argv[4:]
 V = os.path.dirname(os.path.dirname(os.path.abspath(__file__)))
 def sh(cmd, cwd=wt, env=None, timeout=3000):
@@ -24,7 +25,7 @@ meta["ran"] += ["bash demo.sh on HEAD (rc %d)" % rc0, "git apply patch.diff", "c
 dst = os.path.join(V, "seeded", name)
 os.makedirs(dst, exist_ok=True)
 for f in ("patch.diff", "demo.sh", "notes.md"):
-    if os.path.exists(os.path.join(sd, f)):
+    if os.path.exists(os.path.join(sd, f)) and os.path.abspath(sd) != os.path.abspath(dst):
         shutil.copy(os.path.join(sd, f), dst)
 res = {}
 if meta["confirmed"]:
